@@ -54,7 +54,7 @@ impl Engine for C17 {
     fn runs(&self, tier: Tier) -> u64 {
         match tier {
             Tier::Quick => 2_000_000,
-            Tier::Thorough => 20_000_000,
+            Tier::Thorough => 40_000_000,
         }
     }
 
